@@ -487,6 +487,14 @@ class Interp:
             raise PyRaise("AttributeError", node, f"'{type(v).__name__}' object has no attribute '{name}'")
         if v is None:
             raise PyRaise("AttributeError", node, f"'NoneType' object has no attribute '{name}'")
+        if isinstance(v, slice):
+            if name in ("start", "stop", "step"):
+                return getattr(v, name)
+            if name == "indices":
+                def indices(n, _v=v):
+                    t = slice(*[None if x is None else int(x) for x in (_v.start, _v.stop, _v.step)]).indices(int(n))
+                    return tuple(TInt(x) for x in t)
+                return indices
         if isinstance(v, ExcValue) and name == "args":
             return tuple(v.args)
         if isinstance(v, BT) and name == "__name__":
@@ -1560,6 +1568,10 @@ class Interp:
         raise AnalysisAbort("comparison operator")
 
     def data_compare(self, name, l, r, n):
+        # a purely symbolic number stands for the generic real: it differs from every literal
+        for a, b in ((l, r), (r, l)):
+            if isinstance(a, SymScalar) and a.term[0] == "sym" and isinstance(b, (int, float)) and not isinstance(b, TInt) and name in ("eq", "ne"):
+                return name == "ne"
         return NP.elementwise(name, l, r)
 
     def comp(self, gens, fr, emit):
